@@ -128,7 +128,7 @@ func consumeNumber(data []byte, pos int, isFlag bool) int {
 			}
 			// else continue: floating point
 			seenDot = true
-		case '-':
+		case '-', '+':
 			// new number, expected on exponents
 			if data[pos-1] == 'e' || data[pos-1] == 'E' {
 				continue
@@ -155,7 +155,7 @@ func parsePoints(dataPoints string, points []Fl, isEllipticalArc bool) ([]Fl, er
 	data := []byte(dataPoints)
 	for pos := 0; pos < len(data); {
 		c := data[pos]
-		if '0' <= c && c <= '9' || c == '.' || c == '-' || c == 'e' || c == 'E' {
+		if '0' <= c && c <= '9' || c == '.' || c == '-' || c == '+' || c == 'e' || c == 'E' {
 			// for elliptical arc, arguments 4 and 5 are flags
 			// modulo the number of parameters in an elliptical arc command
 			isFlag := isEllipticalArc && (len(points)%7 == 3 || len(points)%7 == 4)
